@@ -247,6 +247,10 @@ class Scale(EnvironmentFilter):
 
         return scale_num if scale_den < .000001 else scale_num/scale_den
 
+def _is_missing(value) -> bool:
+    #missing values are None (e.g., a '?' in an arff file) or nan (nan is the only value that is not equal to itself)
+    return value is None or value != value
+
 class Impute(EnvironmentFilter):
     """Impute missing values (nan) in Interaction contexts."""
 
@@ -341,7 +345,7 @@ class Impute(EnvironmentFilter):
                 imputation = self._get_imputation(col)
                 if imputation is not None:
                     imputations[i] = imputation
-                    if self._miss and any([c is None for c in col]):
+                    if self._miss and any(map(_is_missing,col)):
                         impute_binary[i] = len(impute_binary)
 
         elif is_sparse:
@@ -352,13 +356,13 @@ class Impute(EnvironmentFilter):
                 imputation = self._get_imputation(col + [0]*(len(using_interactions)-len(col)))
                 if imputation is not None:
                     imputations[k] = imputation
-                    if self._miss and any([c is None for c in col]):
+                    if self._miss and any(map(_is_missing,col)):
                         impute_binary[k] = f"{k}_is_missing"
                         binary_template[f"{k}_is_missing"] = 0
 
         elif is_value:
             imputations = self._get_imputation(unimputed)
-            impute_binary = self._miss and any([c is None for c in unimputed])
+            impute_binary = self._miss and any(map(_is_missing,unimputed))
         self._times[2] += time.time()-start
 
         start = time.time()
@@ -369,7 +373,7 @@ class Impute(EnvironmentFilter):
             if is_dense:
                 is_missing = [0]*len(impute_binary)
                 for k,v in enumerate(context):
-                    if v is None and k in imputations:
+                    if _is_missing(v) and k in imputations:
                         context[k] = imputations[k]
                         if k in impute_binary:
                             is_missing[impute_binary[k]] = 1
@@ -382,7 +386,7 @@ class Impute(EnvironmentFilter):
 
                 is_missing = binary_template.copy()
                 for k,v in context.items():
-                    if v is None and k in imputations:
+                    if _is_missing(v) and k in imputations:
                         context[k] = imputations[k]
                         if k in impute_binary:
                             is_missing[impute_binary[k]] = 1
@@ -390,12 +394,12 @@ class Impute(EnvironmentFilter):
 
             elif is_value:
                 if impute_binary:
-                    if context is None:
+                    if _is_missing(context):
                         interaction["context"] = [imputations,1]
                     else:
                         interaction["context"] = [context,0]
                 else:
-                    if context is None:
+                    if _is_missing(context):
                         interaction["context"] = imputations
 
             yield interaction
@@ -403,7 +407,7 @@ class Impute(EnvironmentFilter):
 
     def _get_imputation(self,values):
         try:
-            values = [v for v in values if v is not None]
+            values = [v for v in values if not _is_missing(v)]
             if self._stat == "mean":
                 return sum(values)/len(values)
             if self._stat == "median":
